@@ -206,14 +206,14 @@ type Sched struct {
 	Log     []string
 	LogOn   bool
 	// per-execution side tables
-	chanList []*chanState
-	fobjs    []*fobj
-	order    []*Thread
-	lastX    uint64
-	NoBranch bool
-	timers []*Timer
-	Diverged string
-	CapHit bool
+	chanList   []*chanState
+	fobjs      []*fobj
+	order      []*Thread
+	lastX      uint64
+	NoBranch   bool
+	timers     []*Timer
+	Diverged   string
+	CapHit     bool
 	OutcomeStr string
 }
 
@@ -386,6 +386,15 @@ func Point(op *Op) {
 	t := s.cur
 	t.pending = op
 	t.opDone = false
+	if s.NoBranch && !t.idle && s.Steps < s.MaxStep && op.Alts() > 0 {
+		// deterministic phase: the default choice is "the running thread continues", no choice point and
+		// no fingerprint are recorded, so the other threads need not be examined
+		s.Steps++
+		atomic.AddUint64(&wdProgress, 1)
+		t.chosen = 0
+		s.perform(t)
+		return
+	}
 	s.dispatch(t, false)
 }
 
@@ -546,7 +555,7 @@ func Run(root func(), prefix []int, maxSteps int, logOn bool) *Sched {
 	wdOnce.Do(startWatchdog)
 	atomic.StoreInt32(&wdActive, 1)
 	defer atomic.StoreInt32(&wdActive, 0)
-	s := &Sched{prefix: prefix, MaxStep: maxSteps, fin: make(chan struct{}, 1), exited: make(chan struct{}, 64), LogOn: logOn,}
+	s := &Sched{prefix: prefix, MaxStep: maxSteps, fin: make(chan struct{}, 1), exited: make(chan struct{}, 64), LogOn: logOn}
 	S = s
 	t := &Thread{ID: 0, Name: "root", wake: make(chan struct{}, 1), fn: root, ident: 1}
 	s.threads = append(s.threads, t)
